@@ -18,6 +18,7 @@ def _mod(name):
 REGISTRY = {
     "C10": _mod("p_bs"),
     "C18": _mod("p_stats"),
+    "C11": _mod("p_tbs"),
     "C03": _call("C03"),
     "C04": _call("C04"),
 }
